@@ -1,5 +1,5 @@
 use crate::report::Ctx;
-pub mod c01; pub mod c02; pub mod c03; pub mod c04; pub mod c05;
+pub mod c01; pub mod c02; pub mod c03; pub mod c04; pub mod c05; pub mod c06; pub mod c07;
 pub fn run(ctx: &Ctx) -> i32 {
     match ctx.id.as_str() {
         "C01" => c01::run(ctx),
@@ -7,6 +7,8 @@ pub fn run(ctx: &Ctx) -> i32 {
         "C03" => c03::run(ctx),
         "C04" => c04::run(ctx),
         "C05" => c05::run(ctx),
+        "C06" => c06::run(ctx),
+        "C07" => c07::run(ctx),
         _ => { eprintln!("MACHINERY: unknown property {}", ctx.id); 2 }
     }
 }
